@@ -149,6 +149,9 @@ var c14dns = []string{"CN=100% legit,OU=Users,DC=example,DC=com", "CN=svc%d,DC=e
 
 func H_C14_dn_samples() {
 	bin := vBytes("bin", 2)
+	if vParam("cbin") == 1 {
+		bin = []byte{0xab, 0x25} // everything concrete: decided even where an implementation builds its format string from the data
+	}
 	dn := c14dns[vParam("dn")]
 	d := &DNWithBinary{DistinguishedName: dn, BinaryData: bin}
 	for _, s := range []string{d.ToString(), d.String()} {
